@@ -13,7 +13,11 @@ from . import core
 sys.path.insert(0, core.REPO)
 
 LABELS = {"acq": 1, "rel": 2, "zacq": 3, "zrel": 4, "rd_closed": 5, "rd_closing": 6, "wr_closing": 7, "wr_closed": 8,
-          "send1": 9, "send2": 10, "zcompress": 11, "zflush": 12, "wr_time": 13, "sockclose": 14}
+          "send1": 9, "send2": 10, "zcompress": 11, "zflush": 12, "wr_time": 13, "sockclose": 14, "line": 15}
+
+# source files whose lines are scheduling points in line-level mode
+LINE_FILES = ("frame.py", "compression.py", "websocket.py", "session.py", "mask.py", "message.py", "stream.py")
+REAL_LOCK_TYPES = (type(threading.Lock()), type(threading.RLock()))
 
 
 class Abort(BaseException):
@@ -48,7 +52,8 @@ class Sched(object):
                 if self.aborting:
                     raise Abort()
                 self.cv.wait(5)
-            self.log.append((tid, LABELS[label]))
+            if label != "line":
+                self.log.append((tid, LABELS[label]))
             del self.pending[tid]
 
     def finish(self):
@@ -179,7 +184,7 @@ class ZProxy(object):
         return C()
 
 
-def run_schedule(programs, schedule, compression=None, default="stay"):
+def run_schedule(programs, schedule, compression=None, default="stay", lines=False):
     """programs: list (per thread) of calls: ('send', kind, payload, compress) | ('close', code, reason) | ('server_close', code, reason) | ('disconnect',)
     schedule: list of tids (prefix); afterwards the default policy continues.
     Returns dict(log, wire, results, choices) where choices[i] = (enabled tids, chosen) for DFS."""
@@ -212,16 +217,35 @@ def run_schedule(programs, schedule, compression=None, default="stay"):
         base_set(st, "session", sess)
         sock = WireSocket(sched)
         sess._sock = sock
-        sess._lock = CoopLock(sched, "lock")
+        # the library's own lock objects are replaced by cooperative ones -- but only if they ARE locks: whatever else the
+        # code put there (a dummy, nothing) is left alone, so that the schedules run against the real (lack of) exclusion
+        if isinstance(sess._lock, REAL_LOCK_TYPES):
+            sess._lock = CoopLock(sched, "lock")
         sess._start_time = 0.0
         if compression:
             d = C.Deflate(15, 15, False, compression == "no_takeover")
-            d.lock = CoopLock(sched, "zlock")
+            if isinstance(getattr(d, "lock", None), REAL_LOCK_TYPES):
+                d.lock = CoopLock(sched, "zlock")
             base_set(st, "compression", d)
             st.stream.set_compression(d)
 
+        import os as _os
+        lomond_dir = _os.path.dirname(_os.path.abspath(W.__file__))
+
+        def tracer(frame, event, arg):
+            fn = frame.f_code.co_filename
+            if event == "call":
+                if _os.path.dirname(_os.path.abspath(fn)) == lomond_dir and _os.path.basename(fn) in LINE_FILES:
+                    return tracer
+                return None
+            if event == "line":
+                sched.point("line")
+            return tracer
+
         def worker(tid, calls):
             sched.register(tid)
+            if lines:
+                sys.settrace(tracer)
             try:
                 for c in calls:
                     try:
@@ -259,6 +283,8 @@ def run_schedule(programs, schedule, compression=None, default="stay"):
             except Abort:
                 pass
             finally:
+                if lines:
+                    sys.settrace(None)
                 sched.finish()
 
         # the stream must already be past the HTTP header for server_close; feed a response first (no points: not registered)
@@ -298,7 +324,7 @@ def run_schedule(programs, schedule, compression=None, default="stay"):
             cur = pick
             sched.release(pick)
             steps += 1
-            if steps > 2000:
+            if steps > (40000 if lines else 2000):
                 sched.abort()
                 break
         deadlock = len(sched.finished) < n
@@ -343,3 +369,29 @@ def preemptions(choices, sched):
             if en is None or sched[i - 1] in en:
                 n += 1
     return n
+
+
+def explore_lines(programs, compression=None, fractions=(1.0, 0.5, 0.25), limit=400):
+    """line-level schedules with ONE preemption of thread 0 at every source line it executes, after which thread 1 runs
+    a fraction of its own steps (all / half / a quarter), then thread 0 finishes, then thread 1 (and further threads).
+    Yields (schedule, outcome).  Only for programs with at least two threads."""
+    base = run_schedule(programs, [], compression, lines=True)
+    taken = [c[1] for c in base["choices"] if c[1] is not None]
+    n0 = sum(1 for t in taken if t == 0)
+    n1 = sum(1 for t in taken if t == 1)
+    yield taken, base
+    if n0 == 0 or n1 == 0:
+        return
+    cands = []
+    for p in range(0, n0 + 1):
+        for fr in fractions:
+            q = max(1, int(n1 * fr))
+            cands.append((p, q))
+    # spread the budget evenly over the preemption positions
+    if len(cands) > limit:
+        step = len(cands) / float(limit)
+        cands = [cands[int(i * step)] for i in range(limit)]
+    for p, q in cands:
+        schedule = [0] * p + [1] * q + [0] * (n0 - p + 5) + [1] * (n1 + 5)
+        out = run_schedule(programs, schedule, compression, lines=True)
+        yield [c[1] for c in out["choices"] if c[1] is not None], out
